@@ -463,12 +463,18 @@ class CSSSerializer:
         """
         variablesText = rule.variables.cssText
 
-        if variablesText and rule.wellformed and not self.prefs.resolveVariables:
+        if (
+            (variablesText or self.prefs.keepEmptyRules)
+            and rule.wellformed
+            and not self.prefs.resolveVariables
+        ):
             out = Out(self)
             out.append(self._atkeyword(rule))
             for item in rule.seq:
                 # assume comments {
                 out.append(item.value, item.type)
+            if not variablesText:
+                return f'{out.value()}{self.prefs.paranthesisSpacer}{{}}'
             out.append('{')
             out.append(f'{variablesText}{self.prefs.lineSeparator}}}', indent=1)
             return out.value()
@@ -486,12 +492,14 @@ class CSSSerializer:
         """
         styleText = self.do_css_CSSStyleDeclaration(rule.style)
 
-        if styleText and rule.wellformed:
+        if (styleText or self.prefs.keepEmptyRules) and rule.wellformed:
             out = Out(self)
             out.append(self._atkeyword(rule))
             for item in rule.seq:
                 # assume comments {
                 out.append(item.value, item.type)
+            if not styleText:
+                return f'{out.value()}{self.prefs.paranthesisSpacer}{{}}'
             out.append('{')
             out.append(f'{styleText}{self.prefs.lineSeparator}}}', indent=1)
             return out.value()
@@ -647,7 +655,7 @@ class CSSSerializer:
         # omit semicolon only if no MarginRules
         styleText = self.do_css_CSSStyleDeclaration(rule.style, omit=not rulesText)
 
-        if (styleText or rulesText) and rule.wellformed:
+        if (styleText or rulesText or self.prefs.keepEmptyRules) and rule.wellformed:
             out = Out(self)
             out.append(self._atkeyword(rule))
             out.append(rule.selectorText)
@@ -695,7 +703,7 @@ class CSSSerializer:
         if rule.atkeyword:
             styleText = self.do_css_CSSStyleDeclaration(rule.style)
 
-            if styleText and rule.wellformed:
+            if (styleText or self.prefs.keepEmptyRules) and rule.wellformed:
                 out = Out(self)
 
                 # # use seq but styledecl missing
@@ -710,6 +718,8 @@ class CSSSerializer:
 
                 # ok for now:
                 out.append(self._atkeyword(rule), type_='ATKEYWORD')
+                if not styleText:
+                    return f'{out.value()}{self.prefs.paranthesisSpacer}{{}}'
                 out.append('{')
                 out.append(
                     '%s%s'
